@@ -123,12 +123,15 @@ def main(argv=None):
     for kid, (k, f) in sorted(known_hits.items()):
         print('KNOWN-FINDING: property=%s %s [%s] e.g. %s' % (prop, k['what'], kid, f['key']))
 
-    os.makedirs(os.path.join(driver.ROOT, 'replays'), exist_ok=True)
+    # VERIF_OUT redirects evidence/ and replays/ (used only by tools/seed_matrix.py for parallel what-if runs;
+    # registered commands never set it)
+    out_root = os.environ.get('VERIF_OUT') or driver.ROOT
+    os.makedirs(os.path.join(out_root, 'replays'), exist_ok=True)
     rc = 0
     replay_path = None
     if new_failures:
         f = new_failures[0]
-        replay_path = os.path.join(driver.ROOT, 'replays', '%s-%d.json' % (prop, seed))
+        replay_path = os.path.join(out_root, 'replays', '%s-%d.json' % (prop, seed))
         with open(replay_path, 'w') as fh:
             json.dump(jsonable({'property': prop, 'kind': 'failing-input', 'what': f['what'],
                                 'key': f['key'], 'case': f['case'], 'seed': seed, 'tier': tier,
@@ -137,7 +140,7 @@ def main(argv=None):
         print('  %s' % f['what'])
         rc = 1
     elif ob['broken'] or rep.disagreements:
-        replay_path = os.path.join(driver.ROOT, 'replays', '%s-%d.json' % (prop, seed))
+        replay_path = os.path.join(out_root, 'replays', '%s-%d.json' % (prop, seed))
         with open(replay_path, 'w') as fh:
             json.dump(jsonable({'property': prop, 'kind': 'no-failing-input-found',
                                 'broken_obligations': ob['broken'], 'detail': ob['detail'],
@@ -177,8 +180,8 @@ def main(argv=None):
         'wall_s': round(time.time() - t0, 2),
         'violations': len(new_failures) if new_failures else (1 if rc else 0),
     }
-    os.makedirs(os.path.join(driver.ROOT, 'evidence'), exist_ok=True)
-    with open(os.path.join(driver.ROOT, 'evidence', '%s.json' % prop), 'w') as fh:
+    os.makedirs(os.path.join(out_root, 'evidence'), exist_ok=True)
+    with open(os.path.join(out_root, 'evidence', '%s.json' % prop), 'w') as fh:
         json.dump(ev, fh, indent=1, sort_keys=True)
     if rc == 0:
         print('OK property=%s tier=%s seed=%d obligations=%d/%d cases=%d nontrivial=%d wall=%.1fs' % (
